@@ -1,7 +1,7 @@
 SPECIFICATION Spec
 CONSTANTS
   Vary = {"fn", "sh", "shk"}
-  Fns = {"Print", "Printf", "Println", "Fprint", "Fprintf", "Fprintln", "Sprint", "Sprintf", "Sprintln", "Errorf", "Sscan"}
+  Fns = {"Println", "Printf", "Print", "Sprint", "Errorf"}
   Shs = {"-", "echo", "print", "printf", "println", "errorf", "sprint", "fprintln", "fmt", "toUpper"}
 INVARIANTS TypeOK Confluent ImportSound Export
 PROPERTIES Stable Terminates
